@@ -15,10 +15,47 @@ class AnalysisError(Exception):
 SYNTHETIC_SRC = '''
 def iter_sentinel(function, sentinel):
     while True:
-        value = function()
+        try:
+            value = function()
+        except StopIteration:
+            return
         if value == sentinel:
             return
         yield value
+
+
+def map1(function, iterable):
+    for item in iterable:
+        yield function(item)
+
+
+def reduce3(function, iterable, initial):
+    value = initial
+    for item in iterable:
+        value = function(value, item)
+    return value
+
+
+def op_xor(a, b):
+    return a ^ b
+
+
+def op_add(a, b):
+    return a + b
+
+
+def op_or(a, b):
+    return a | b
+
+
+def op_and(a, b):
+    return a & b
+
+
+def filter1(function, iterable):
+    for item in iterable:
+        if function(item):
+            yield item
 '''
 
 
@@ -311,10 +348,19 @@ class Program:
     # ------------------------------------------------------------------
     def func(self, qualname):
         full = qualname if qualname.startswith(PKG + '.') else f'{PKG}.{qualname}'
-        fi = self.funcs.get(full)
+        fi = self.funcs.get(full) or self._reexported(full)
         if fi is None:
             raise AnalysisError(f'anchor function {full} not found in the current tree')
         return fi
+
+    def _reexported(self, full):
+        """a function that a module exposes under this name by importing it from elsewhere in the package"""
+        modname, _, name = full.rpartition('.')
+        mod = self.modules.get(modname)
+        if mod is None:
+            return None
+        r = self.resolve_name(mod, name)
+        return r[1] if r is not None and r[0] == 'func' else None
 
     def cls(self, qualname):
         full = qualname if qualname.startswith(PKG + '.') else f'{PKG}.{qualname}'
@@ -344,7 +390,7 @@ class Program:
 
     def has_func(self, qualname):
         full = qualname if qualname.startswith(PKG + '.') else f'{PKG}.{qualname}'
-        return full in self.funcs
+        return full in self.funcs or self._reexported(full) is not None
 
     def config_literal(self):
         """The packaged configuration: literal dict assigned to `config` in config.py."""
